@@ -47,7 +47,7 @@ type Res struct {
 }
 
 func (r Res) String() string {
-	return fmt.Sprintf("(%v,%v,err=%q,sig=%.16s)", r.B1, r.B2, r.Err, r.Sig)
+	return fmt.Sprintf("(%v,%v,err=%q,sig=%s)", r.B1, r.B2, r.Err, r.Sig)
 }
 
 // State is the abstract state: retained shares and the cache flag.
